@@ -9,6 +9,8 @@
   Daily/billing: about `EEM.Model.PredictFrame`.
   Any number of days, any number and order of transitions, any per-slot predictor.
 -/
+import EEM.Gen.DstStatements
+import EEM.Spec.DstStatements
 import EEM.Real
 import EEM.Model.Dst
 import EEM.Model.PredictFrame
@@ -264,5 +266,16 @@ theorem C06_daily_finite_iff {α β : Type} (m : MaskMode) (hasObs : Bool)
 /-! ### Non-vacuity -/
 example : transformDst [.none, .interp 2, .mean 1] (List.map (fun n => (n : ℝ)) (List.range 72)) ≠ [] := by
   simp [transformDst, transformDay]
+
+/-! ### Tie to the source (T1): the statements the transcription was made from, regenerated on every run -/
+
+/-- `EEM.Model.DstSrc` transcribes `_transform_dst` statement by statement, and `C06_src_transform_is_per_day` is a theorem about
+that transcription; this theorem pins the statements themselves: the flattened bodies of `_get_dst_indices` and `_transform_dst`,
+re-extracted from the live source, are the ones the transcription was made from (`EEM.Spec.DstStatements` maps each to its
+definition).  An edit of either function — another index arithmetic, another sort key, a changed fence post — breaks this proof
+even when the function-level differential run (`dstsrc`) happens not to sample an input that tells the two apart. -/
+theorem C06_src_dst_statements_are_the_transcribed_ones :
+    EEM.Gen.DstStatements.functions = EEM.Spec.DstStatements.transcribed := by
+  decide +kernel
 
 end EEM.Props.C06
